@@ -18,7 +18,7 @@
    below 2^53, where exact and float64 comparison coincide; see notes/C08.md. *)
 From Coq Require Import List ZArith Bool String Ascii.
 From GZ Require Import C08.Model C08.Spec C08.Proofs C08.ProofsB.
-From GZ Require Import C08.KModel C08.KSpec C08.KProofs C08.KProofsB C08.KProofsC C08.Rounding C08.Check C08.CheckProofs.
+From GZ Require Import C08.KModel C08.KSpec C08.KProofs C08.KProofsB C08.KProofsC C08.Rounding C08.Check C08.CheckProofs C08.TagModel C08.TagProofs.
 Import ListNotations.
 Open Scope Z_scope.
 Open Scope string_scope.
@@ -379,6 +379,28 @@ Print Assumptions calls_order_irrelevant.
 Theorem check_never_reports_the_model : forall cs, agrees cs = true -> prop_ok cs = true.
 Proof. exact agrees_implies_prop_ok_case. Qed.
 Print Assumptions check_never_reports_the_model.
+
+(* the tag grammar (TagModel.v: parseSegments, parseOption, parseProperty, parseOptions,
+   parseNumberRange): whatever the text of a tag, if it is accepted its option set is well formed —
+   in particular its range has a bound and is not empty — and a refused tag can only be claimed (by the
+   generator, checked on every case) as an option set the unmarshaller refuses as well *)
+Theorem accepted_tag_is_wellformed : forall raw k o, parse_tag raw = TagOk k o -> opts_ok o = true.
+Proof. exact parse_tag_wellformed_lemma. Qed.
+Print Assumptions accepted_tag_is_wellformed.
+
+Theorem refused_tag_is_claimed_as_refused : forall raw key o,
+  parse_tag raw = TagErr -> claim_ok raw key o = true -> opts_ok o = false.
+Proof. exact claim_of_refused_tag_lemma. Qed.
+Print Assumptions refused_tag_is_claimed_as_refused.
+
+Example ex_tag_grammar :
+  parse_tag "a, optional=!b , range=(1:5], options=[x\,y,z],string" =
+    TagOk "a" (Some (mkOpts true (Some (true, "b")) None (Some (mkRange false (Some (mkDec 1 0)) (Some (mkDec 5 0)) true)) ["x,y"; "z"] true))
+  /\ parse_tag "a,range=[5:1]" = TagErr /\ parse_tag "a,range=(2:2]" = TagErr /\ parse_tag "a,default=x=y" = TagErr
+  /\ parse_tag "a,omitempty" = TagOk "a" (Some (mkOpts false None None None [] false))
+  /\ parse_tag "a,options=x|y,options=" = TagOk "a" (Some (mkOpts false None None None [] false))
+  /\ parse_tag ",optionalx" = TagOk "" (Some (mkOpts true None None None [] false)).
+Proof. vm_compute. repeat split. Qed.
 
 (* ---------------------------------------------------------------- non-vacuity (keys) *)
 
